@@ -486,3 +486,22 @@ def rule_renderable(P) -> RuleResult:
     for t in reg.converting_types:
         res.ok({'converting_type': t.__name__})
     return res
+
+
+def _only_columns(res):
+    out = RuleResult(res.rule)
+    out.exhaustive = res.exhaustive
+    out.instances = [i for i in res.instances if isinstance(i, dict) and ('Table.' in str(i.get('overload', '')) or
+                                                                          '.' in str(i.get('overload', '')) and 'row' in str(i))]
+    out.findings = [f for f in res.findings if f.construct.startswith(('column:', 'attribute:'))]
+    out.unresolved = res.unresolved
+    return out
+
+
+def rule_dtype_columns(P) -> RuleResult:
+    """R-DTYPE restricted to table columns and structured attributes (C11)."""
+    return _only_columns(rule_dtype(P))
+
+
+def rule_typesafe_columns(P) -> RuleResult:
+    return _only_columns(rule_typesafe(P))
